@@ -51,7 +51,7 @@ ZOO_QUICK = [(nw, lat, rs, cen) for nw in (1, 2, 3, 4) for lat in ("sc", "hex", 
 ZOO_THOROUGH = [(nw, lat, rs, cen) for nw in (1, 2, 3, 4, 6)
                 for lat in ("sc", "tet", "orth", "hex", "fcc", "bcc", "mono", "tric")
                 for rs in ("R0", "shell1", "shell2", "lopsided", "cube2")
-                for cen in ("zero", "generic", "half", "thirds", "outside", "shared")]
+                for cen in ("zero", "generic", "half", "outside")]
 BUNDLED = ["Haldane_ptb", "Haldane_tbm", "Chiral", "KaneMele_even", "KaneMele_odd", "CuMnAs_2d", "SSH_ptb",
            "Chiral_OSD", "model_1d"]
 
@@ -92,11 +92,12 @@ def cases(tier, seed):
                 yield {"kind": "ahc_top", "sys": s, "NK": nk, "tetra": tetra}
     # (c) quantisation
     nks = [48, 96] if quick else [48, 96, 144]
-    deltas = HALDANE_DELTA if quick else HALDANE_DELTA + (0.4, 1.2)
-    phis = HALDANE_PHI if quick else HALDANE_PHI + ("-pi/4", "pi/3", "0.6pi", "-0.8pi")
+    deltas = HALDANE_DELTA if quick else HALDANE_DELTA + (1.2,)
+    phis = HALDANE_PHI if quick else HALDANE_PHI + ("-pi/4", "0.6pi")
     for b in ("Haldane_tbm", "Haldane_ptb"):
         for d, h2, ph in itertools.product(deltas, HALDANE_HOP2, phis):
-            yield {"kind": "chern", "model": [b, d, h2, ph], "NK": nks}
+            # third grid (144) for the tbmodels builder only: Haldane_ptb repeats the same Hamiltonians
+            yield {"kind": "chern", "model": [b, d, h2, ph], "NK": nks if b == "Haldane_tbm" else [48, 96]}
     lats = ("sc", "hex") if quick else ("sc", "hex", "mono", "orth")
     cens = ("generic",) if quick else ("generic", "zero", "outside")
     for lat, cen in itertools.product(lats, cens):
